@@ -364,6 +364,25 @@ def finish(ctx, level, coverage, assumptions):
     cov["known_findings_observed"] = sorted(seen_known)
     if ctx.notes:
         cov["notes"] = ctx.notes
+    # the evidence schema types some coverage keys; a property module that used such a name for richer data keeps the
+    # data under <key>_detail and the typed key gets the count
+    typed = {"evaluations": int, "distinct_nontrivial": int, "rule": str, "samples": list, "states": int, "transitions": int,
+             "traces_validated_against_impl": int, "obligations": int, "discharged": int, "checker_cmd": str, "trusted_base": list,
+             "programs": int, "disagreements_checked": int, "explanation": str, "exhaustive": bool}
+    for k, t in typed.items():
+        if k in cov and (not isinstance(cov[k], t) or (t is int and isinstance(cov[k], bool))):
+            v = cov.pop(k)
+            cov[k + "_detail"] = v
+            if t is int and isinstance(v, (list, dict, tuple, set)):
+                cov[k] = len(v)
+            elif t is int and isinstance(v, float):
+                cov[k] = int(v)
+            elif t is str:
+                cov[k] = json.dumps(v, default=str)[:2000]
+            elif t is list:
+                cov[k] = [v]
+            elif t is bool:
+                cov[k] = bool(v)
     ev = {
         "property_id": ctx.pid,
         "tier": "thorough" if ctx.tier == "thorough" else "quick",
